@@ -1,2 +1,41 @@
-(* C11 - the index, filters and role lookups agree with the data store (theorems added as they are proved) *)
-From BSE Require Import Model.Val Model.Compose Model.Index.
+(* C11 - the index, filters and role lookups agree with the data store.  Statements are in Proofs/ComposeDefs.v. *)
+From BSE Require Import Model.Val Model.Elements Model.Compose Model.Index Model.Memo Gen.GenApi Proofs.ComposeDefs Proofs.ComposeSpec Proofs.IndexSpec.
+
+(* filter_basis_sets = exactly the entries meeting all given criteria, case-insensitively, entries and order unchanged *)
+Theorem filter_spec : filter_spec_stmt.
+Proof. exact IndexSpec.filter_spec. Qed.
+Print Assumptions filter_spec.
+
+Theorem filter_invalid_role_refused : filter_invalid_stmt.
+Proof. exact IndexSpec.filter_invalid. Qed.
+Print Assumptions filter_invalid_role_refused.
+
+Theorem names_enumerate_index : names_enumerate_stmt.
+Proof. exact IndexSpec.names_enumerate. Qed.
+Print Assumptions names_enumerate_index.
+
+Theorem families_enumerate_index : families_enumerate_stmt.
+Proof. exact IndexSpec.families_enumerate. Qed.
+Print Assumptions families_enumerate_index.
+
+Theorem lookup_role_spec : lookup_role_spec_stmt.
+Proof. exact IndexSpec.lookup_role_spec. Qed.
+Print Assumptions lookup_role_spec.
+
+Example roles_demo : is_role "jkfit" = true /\ is_role "nosuchrole" = false.
+Proof. vm_compute. split; reflexivity. Qed.
+
+(* ---- data-level theorems over the shipped index (Gen/GenIndex.v = data/METADATA.json now; finite, by vm_compute) ---- *)
+From BSE Require Import Gen.GenIndex Proofs.IndexFinite.
+
+(* for every entry: the key is the transformed display name; every alias maps to a record that is the same up to
+   display_name/other_names and lists this name back; every auxiliary name of every role exists in the index (so
+   lookup_basis_by_role returns only existing basis sets); latest_version is listed and is the numeric maximum;
+   every version's file path is <relpath>/<basename>.<version>.table.json; role and family are valid *)
+Theorem shipped_index_entries_ok : forall kv, In kv shipped_index -> entry_checks kv = true.
+Proof. exact shipped_entry_ok. Qed.
+Print Assumptions shipped_index_entries_ok.
+
+Theorem shipped_index_keys_distinct : nodup_strs (map fst shipped_index) = true.
+Proof. exact shipped_keys_distinct. Qed.
+Print Assumptions shipped_index_keys_distinct.
